@@ -84,6 +84,10 @@ def gen_op(r: random.Random, model: A.Model, *, scoped_bias=0.15, failing_bias=0
         leaves = [p for p, e in defs if not A.is_set(e)]
         sets = [p for p, e in defs if A.is_set(e)]
         fam_roots = sorted({e["path"][:1] for e in target if e["inh"] is None and len(e["path"]) > 1})
+        # families inside explicitly written sets (`boot = { loader.grub.enable = …; loader.timeout = …; };`)
+        for sp, se in defs:
+            if A.is_set(se) and len(se["path"]) == 1:
+                fam_roots.extend(sorted({sp + e2["path"][:1] for e2 in se["val"]["set"] if e2["inh"] is None and len(e2["path"]) > 1}))
         inherited = sorted({e["path"][0] for e in target if e["inh"] is not None})
         if y < 0.02 and inherited and at_inherited and op == "set":
             # the inherited name itself (finding F28 when this class is switched off)
